@@ -114,19 +114,28 @@ int32_t jls_track_repair_pointers(struct jls_core_track_s * track) {
         } else {
             index_chunk_next = core->chunk_cur;
             offset_descend_next = 0;
+            bool index_ok = true;  // the entries lie within the payload
             if (JLS_TRACK_TYPE_FSR == track->track_type) {
                 struct jls_fsr_index_s * r = (struct jls_fsr_index_s *) core->buf->start;
-                // entries of omitted blocks are 0: descend to the last block that was stored
-                for (uint32_t k = r->header.entry_count; (k > 0) && !offset_descend_next; --k) {
-                    offset_descend_next = r->offsets[k - 1];
+                if ((core->buf->length < sizeof(r->header))
+                        || ((sizeof(r->header) + ((size_t) r->header.entry_count) * sizeof(r->offsets[0])) > core->buf->length)) {
+                    index_ok = false;
+                } else {
+                    // entries of omitted blocks are 0: descend to the last block that was stored
+                    for (uint32_t k = r->header.entry_count; (k > 0) && !offset_descend_next; --k) {
+                        offset_descend_next = r->offsets[k - 1];
+                    }
                 }
             } else {
                 struct jls_index_s * r = (struct jls_index_s *) core->buf->start;
-                if (r->header.entry_count > 0) {
+                if ((core->buf->length < sizeof(r->header))
+                        || ((sizeof(r->header) + ((size_t) r->header.entry_count) * sizeof(r->entries[0])) > core->buf->length)) {
+                    index_ok = false;
+                } else if (r->header.entry_count > 0) {
                     offset_descend_next = r->entries[r->header.entry_count - 1].offset;
                 }
             }
-            if (jls_core_rd_chunk(core)) {
+            if (!index_ok || jls_core_rd_chunk(core)) {
                 descend = true;
             } else {
                 if (summary_chunk.offset && (summary_chunk.hdr.item_next != (uint64_t) core->chunk_cur.offset)) {
